@@ -113,6 +113,7 @@ pub fn worker_dispatch(args: &[String]) {
     let kind = args.first().map(|s| s.as_str()).unwrap_or("");
     match kind {
         "c29" => c29::worker(&args[1..]),
+        "c06" => c06::worker(&args[1..]),
         _ => {
             eprintln!("unknown worker kind {:?}", kind);
             std::process::exit(2);
